@@ -1,8 +1,9 @@
 #!/usr/bin/env python3
-"""Overlay-based self-test for the C17 draft contracts (never touches /repo).
-For every entry of selftest.json: copy the source file into the overlay dir at the same relative
-path, apply the edit to the copy, run ./check C17 (optionally --only <entry['only']>), delete the copy.
-usage: run_selftest.py [name-substring ...]"""
+"""Overlay-based self-test for the C19 draft contracts (never touches /repo).
+For every entry of the selftest file: copy the source file into the overlay dir at the same relative
+path, apply the edit to the copy, run the checker, delete the copy.
+usage: run_selftest.py [--file selftest.json] [--overlay DIR] [name-substring ...]
+env C19_CHECK: alternative checker command (default ./check), e.g. a privately patched engine build."""
 import json, os, subprocess, sys
 HERE = os.path.dirname(os.path.abspath(__file__))
 REPO = '/repo'
@@ -11,24 +12,29 @@ def sh(cmd):
     return subprocess.run(cmd, shell=True, capture_output=True, text=True)
 
 def main():
-    only = sys.argv[1:]
-    entries = json.load(open(os.path.join(HERE, 'selftest.json')))
+    args = sys.argv[1:]
+    fn, ov = os.path.join(HERE, 'selftest.json'), HERE
+    while args and args[0] in ('--file', '--overlay'):
+        if args[0] == '--file': fn = args[1]
+        else: ov = args[1]
+        args = args[2:]
+    entries = json.load(open(fn))
     bad = n = 0
     for e in entries:
-        if only and not any(o in e['name'] for o in only):
+        if args and not any(o in e['name'] for o in args):
             continue
         n += 1
         src = open(os.path.join(REPO, e['file'])).read()
         if e['old'] not in src:
             print('STALE   %s: text to replace not found' % e['name']); bad += 1; continue
-        dst = os.path.join(HERE, e['file'])
+        dst = os.path.join(ov, e['file'])
         if os.path.exists(dst):
             print('refusing: %s exists in the overlay' % dst); return 2
         try:
+            os.makedirs(os.path.dirname(dst), exist_ok=True)
             open(dst, 'w').write(src.replace(e['old'], e['new'], 1))
-            # C17_CHECK: alternative checker command (e.g. a privately patched engine build); default ./check
-            chk = os.environ.get('C17_CHECK', './check')
-            cmd = 'cd /verif && KVC_CONTRACT_OVERLAY=%s OVERLAY=%s KV=/tmp/ag_C17_st KVC_VERIF=/tmp/ag_C17_st %s %s' % (HERE, HERE, chk, e['prop'])
+            chk = os.environ.get('C19_CHECK', './check')
+            cmd = 'cd /verif && KVC_CONTRACT_OVERLAY=%s KVC_VERIF=/tmp/ag_C19_st %s %s' % (ov, chk, e['prop'])
             if e.get('only'):
                 cmd += " --only '%s'" % e['only']
             r = sh(cmd)
@@ -41,7 +47,7 @@ def main():
                 ok = False
                 print('NOBUILD %s: %s' % (e['name'], r.stderr[:300]))
             names = sorted(set(v.split('replay=')[1].split('/')[-1].split('.json')[0].split('#')[-1] for v in viol))
-            print('%s %-38s expect=%s got=%s %s' % ('ok  ' if ok else 'BAD ', e['name'], e['expect'], 'fail' if failed else 'pass', ' '.join(names)[:300]))
+            print('%s %-40s expect=%s got=%s %s' % ('ok  ' if ok else 'BAD ', e['name'], e['expect'], 'fail' if failed else 'pass', ' '.join(names)[:300]))
             if not ok:
                 bad += 1
                 if not viol:
